@@ -443,6 +443,9 @@ namespace BitSerializer::Convert::Detail
 
 		// Based on Howard Hinnant's algorithm
 		static_assert(sizeof(int) >= 4, "This algorithm has not been ported to a 16 bit integers");
+		if (days > std::numeric_limits<long long>::max() - 719468ll) {
+			throw std::out_of_range("Time point is too far in the future to be represented as ISO date");
+		}
 		auto const z = days + 719468ll;
 		auto const era = (z >= 0 ? z : z - 146096) / 146097;
 		auto const doe = static_cast<unsigned>(z - era * 146097);				// [0, 146096]
